@@ -19,6 +19,7 @@ type verifReg struct {
 	phantom net.IP
 	keys    interface{}
 	rd      io.Reader
+	other   bool // a registration of another transport (no obfs4 keys, its own key stream)
 }
 
 func verifNewReg(secret []byte, phantom net.IP) *verifReg {
@@ -28,11 +29,16 @@ func verifNewReg(secret []byte, phantom net.IP) *verifReg {
 	return &verifReg{secret: secret, phantom: phantom, rd: rd}
 }
 
-func (r *verifReg) SharedSecret() []byte                 { return r.secret }
-func (r *verifReg) GetRegistrationAddress() string       { return "" }
-func (r *verifReg) GetDstPort() uint16                   { return 443 }
-func (r *verifReg) PhantomIP() *net.IP                   { return &r.phantom }
-func (r *verifReg) TransportType() pb.TransportType      { return pb.TransportType_Obfs4 }
+func (r *verifReg) SharedSecret() []byte           { return r.secret }
+func (r *verifReg) GetRegistrationAddress() string { return "" }
+func (r *verifReg) GetDstPort() uint16             { return 443 }
+func (r *verifReg) PhantomIP() *net.IP             { return &r.phantom }
+func (r *verifReg) TransportType() pb.TransportType {
+	if r.other {
+		return pb.TransportType_Min
+	}
+	return pb.TransportType_Obfs4
+}
 func (r *verifReg) TransportParams() any                 { return nil }
 func (r *verifReg) SetTransportKeys(k interface{}) error { r.keys = k; return nil }
 func (r *verifReg) TransportKeys() interface{}           { return r.keys }
@@ -70,7 +76,9 @@ var verifObfs4Lens = []int{0, 63, 64, 140, 141, 1000, 8191, 8192, 8193, 8300}
 // connection's phantom (a client's genuine handshake of ANY permitted padding,
 // 141..8192 bytes), that registration is found.  Otherwise: try-again below
 // 8192 bytes, not-transport from 8192 on.  The third-party server handshake
-// behind a match is stubbed.
+// behind a match is stubbed - so a counterexample in which a registration IS matched cannot
+// run natively past the match (the real handshake wants a real client): those replay in the engine.
+// verif:replay=native-then-model
 // verif:shards=10
 func VerifC02Obfs4Wrap() {
 	verifnd.Sequential()
@@ -87,6 +95,7 @@ func VerifC02Obfs4Wrap() {
 	}
 	r1 := verifNewReg(verifnd.Bytes("secret1", 32), p1)
 	add(r1)
+	var otherSecret []byte
 	if verifnd.Bool("second-registration") {
 		add(verifNewReg(verifnd.Bytes("secret2", 32), p1))
 	}
@@ -94,7 +103,17 @@ func VerifC02Obfs4Wrap() {
 		add(verifNewReg(r1.secret, p2))
 	}
 	if verifnd.Bool("other-transport-on-phantom") {
-		rm.byPhantom[p1.String()][string(verifnd.Bytes("min-identifier", 32))] = &verifReg{secret: r1.secret, phantom: p1}
+		// a validated registration of another transport on the same phantom, as the station
+		// stores it: under that transport's identifier, without obfs4 keys, with the key stream
+		// every registration carries (its secret: r1's or another one)
+		ms := r1.secret
+		if verifnd.Bool("other-transport-has-its-own-secret") {
+			ms = verifnd.Bytes("secret-min", 32)
+		}
+		m := verifNewReg(ms, p1)
+		m.other = true
+		otherSecret = ms
+		rm.byPhantom[p1.String()][string(verifnd.Bytes("min-identifier", 32))] = m
 	}
 	dst := p1
 	if verifnd.Bool("connection-to-other-phantom") {
@@ -117,12 +136,26 @@ func VerifC02Obfs4Wrap() {
 			}
 		}
 	}
+	if otherSecret != nil && !genuine && n >= ClientMinHandshakeLength && verifnd.Bool("window-holds-the-mark-that-the-other-transport's-secret-would-give") {
+		// a genuine obfs4 flight of a client whose secret is registered for ANOTHER transport only
+		twin := verifNewReg(otherSecret, p1)
+		if ck, err := generateObfs4Keys(twin.rd); err == nil {
+			w := verifWindow(n)
+			cm := generateMark(ck.NodeID, ck.PublicKey, &rep)
+			if verifnd.Symbolic() {
+				verifnd.Assume(verifnd.BytesEq(buf[w:w+MarkLength], cm))
+			} else {
+				copy(buf[w:], cm)
+			}
+		}
+	}
 	data := bytes.NewBuffer(append([]byte{}, buf...))
 	reg, _, err := t.WrapConnection(data, nil, dst, rm)
 	found := reg != nil
 	if found {
 		got, ok := reg.(*verifReg)
 		verifnd.Assert(ok && got != nil && got.phantom.Equal(dst), "C02.obfs4.registration-is-on-the-connection's-phantom")
+		verifnd.Assert(ok && got != nil && !got.other, "C02.obfs4.registration-is-an-obfs4-registration")
 		if ok && got != nil && n >= ClientMinHandshakeLength {
 			gk, isK := got.keys.(Obfs4Keys)
 			verifnd.Assert(isK, "C02.obfs4.registration-has-obfs4-keys")
@@ -148,6 +181,7 @@ func VerifC02Obfs4Wrap() {
 // VerifC04Obfs4Lengths: the completeness half of VerifC02Obfs4Wrap under C04 (a
 // registered client's obfs4 first flight of every permitted padding length is
 // recognised).
+// verif:replay=native-then-model
 // verif:shards=10
 func VerifC04Obfs4Lengths() { VerifC02Obfs4Wrap() }
 
